@@ -58,6 +58,24 @@ pub fn c04() -> Outcome {
             if !close(got, want) { fail!(n, d, "Function::substitute: f={f:?} replacements={map:?} at {s:?}: substituted function gives {got}, composition gives {want}"); }
         }
     } } } }
+    // (b0) a replaced variable keeps its declared kind and bound, but only the REMAINING variables are inputs: at an in-bound state of those, evaluation reports the value of the
+    // replacement for it even when that value lies outside the bound still declared on the replaced variable
+    for (kind, bound) in [(Kind::Integer, Some((0.0, 1.0))), (Kind::Binary, None), (Kind::Continuous, Some((-1.0, 0.5))), (Kind::Integer, Some((0.0, 5.0)))] {
+        n += 1; d.insert((7, n, 0, 0, 0));
+        let dvs = vec![dv(1, kind, bound), dv(2, Kind::Binary, None), dv(3, Kind::Integer, Some((0.0, 4.0)))];
+        let mut i = inst(dvs, f_of(F::Linear(lin(&[(1, 1.0), (2, 1.0)], 0.0))), vec![con(10, Equality::LessThanOrEqualToZero, f_of(F::Linear(lin(&[(1, 1.0)], -10.0))))]);
+        if let Err(e) = i.substitute([(1u64, f_of(F::Linear(lin(&[(2, 1.0), (3, 2.0)], 0.0))))].into_iter().collect()) { fail!(n, d, "Instance::substitute failed: {e}"); }
+        for (x2, x3) in [(1.0, 1.0), (0.0, 4.0), (1.0, 0.0)] {
+            let x1 = x2 + 2.0 * x3;
+            match i.evaluate(&state(&[(2, x2), (3, x3)])) {
+                Ok((sol, _)) => {
+                    let got = sol.state.as_ref().and_then(|s| s.entries.get(&1).copied());
+                    if got != Some(x1) || !close(sol.objective, x1 + x2) { fail!(n, d, "x1 := x2 + 2*x3 (x1 declared {kind:?} {bound:?}) at x2={x2}, x3={x3}: reported x1={got:?}, objective {}; expected {x1} and {}", sol.objective, x1 + x2); }
+                }
+                Err(e) => fail!(n, d, "x1 := x2 + 2*x3 (x1 declared {kind:?} {bound:?}): evaluating the in-bound state x2={x2}, x3={x3} of the remaining variables failed: {e}"),
+            }
+        }
+    }
     // (b) instance level, chains by successive substitution: x1 := r(x4,x5), then x4 := 2*x5 + 1
     for (fi, f) in fs.iter().enumerate() { for r1 in [0usize, 1, 2, 4] {
         n += 1; d.insert((1, fi, r1, 0, 0));
